@@ -36,10 +36,10 @@ func FlattenItemCollection(col ItemCollection) ItemCollection {
 	if col == nil {
 		return col
 	}
-	for k, it := range ItemCollectionDeduplication(&col) {
-		if iri := it.GetLink(); iri != "" {
-			col[k] = iri
-		}
+	ItemCollectionDeduplication(&col)
+	for k, it := range col {
+		// objects with an id become that id, IRIs, links and objects without id stay as they are
+		col[k] = FlattenToIRI(it)
 	}
 	return col
 }
@@ -138,5 +138,5 @@ func Flatten(it Item) Item {
 		})
 		return it
 	}
-	return it.GetLink()
+	return FlattenToIRI(it)
 }
